@@ -375,6 +375,18 @@ class LiteralMethod(DeserializationMethod):
 
 
 @dataclass
+class ConstrainedLiteralMethod(DeserializationMethod):
+    method: DeserializationMethod
+    constraints: Dict[type, Tuple[Constraint, ...]]
+
+    def deserialize(self, data: Any) -> Any:
+        result = self.method.deserialize(data)
+        if type(data) in self.constraints:
+            validate_constraints(data, self.constraints[type(data)], None)
+        return result
+
+
+@dataclass
 class MappingCheckOnly(DeserializationMethod):
     constraints: Tuple[Constraint, ...]
     key_method: DeserializationMethod
